@@ -327,6 +327,8 @@ def render_block_items(items, r, trailing_semicolon=None):
     for i, it in enumerate(items):
         if it['k'] == 'comment':
             out += r.nl() + '/*' + it['text'] + '*/'
+        elif it['k'] == 'raw':  # injected garbage (C04), always terminated
+            out += r.nl() + it['text'] + ';'
         else:
             out += r.nl() + render_decl(it, r)
             last_item = i == n - 1  # a comment after a declaration without ';' would belong to that declaration
@@ -375,6 +377,8 @@ def spell_atkw(kw, r):
 
 def render_stmt(s, r):
     k = s['k']
+    if k == 'raw':  # injected garbage (C04)
+        return s['text']
     if k == 'comment':
         return '/*' + s['text'] + '*/'
     if k == 'charset':
